@@ -38,6 +38,10 @@ fn mk_msg(dtag: u64, len: usize) -> Msg {
 }
 
 fn case(r: &mut Rng, res: &mut CaseResult) {
+    if r.chance(1, 3) {
+        session::ambient_jitter(Some(r.next()));
+        res.tags.insert("transport jitter".to_string());
+    }
     let fp = if r.chance(1, 2) { r.range(200, 1200) } else { 0 };
     hooks::set_failpoint_delay(fp);
     hooks::set_recording(true);
